@@ -16,6 +16,8 @@
  * The configurations are chosen so that DTSTART's local day equals its UTC day (what a date entry means when
  * they differ - Europe/Berlin 01:30 in summer is 23:30Z of the day before - is not settled by the property: the
  * code pastes DTSTART's UTC time of day onto the date).
+ * form=zoned (option): the same days written as date-times at the event's local time with the event's TZID, the
+ * line's parameters in every order (TZID only, VALUE=DATE-TIME;TZID=, TZID=;VALUE=DATE-TIME); same oracle.
  */
 #include "vdrv.h"
 #include "ref/icalio.h"
@@ -108,6 +110,12 @@ enumerate(void)
 	const int rdate = !strcmp(vd_opt("mode", "exdate"), "rdate");
 	const int maxlist = (int)vd_opt_l("maxlist", 3);
 	const int nz = (int)vd_opt_l("zones", NZONES);
+	/* form=zoned: the days are written as date-times at the event's local time in the event's zone (TZID parameter),
+	 * the line's parameters in every order: TZID only | VALUE=DATE-TIME;TZID= | TZID=;VALUE=DATE-TIME (one comma
+	 * list in each spelling; one line per day with every assignment of a spelling to each line).  They name the
+	 * same occurrences / add the same instants as the date form. */
+	const int zoned = !strcmp(vd_opt("form", "date"), "zoned");
+	static const char *const spname[] = {"tzid-only", "value-then-tzid", "tzid-then-value"};
 	static const int mdays[] = {31, 28, 31, 30, 31, 30, 31, 31, 30, 31, 30, 31};
 
 	vd_count_cases = 0;
@@ -171,8 +179,16 @@ enumerate(void)
 				for (int i = 0; i < k; i++, ss /= 14) idx[i] = (int)(ss % 14);
 				for (int i = 0; i < k; i++) for (int j = 0; j < i; j++) dup |= idx[i] == idx[j];
 				if (dup) continue;
-				for (int layout = 0; layout < (k > 1 ? 2 : 1); layout++) {
+				int nlay = k > 1 ? 2 : 1;
+				if (zoned) {
+					/* 0..2: one list in spelling 0..2; 3..: one line per day, assignment (layout - 3) in base 3 */
+					nlay = 3;
+					if (k > 1) for (int i = 0, p = 1; i <= k; i++, p *= 3) if (i == k) nlay += p;
+				}
+				for (int layout = 0; layout < nlay; layout++) {
 					size_t o = 0;
+					int spcls = 0;
+					char sig[96];
 					int64_t want[32], got[40];
 					int nw = 0, ng;
 					const char *prop = rdate ? "RDATE" : "EXDATE";
@@ -180,7 +196,20 @@ enumerate(void)
 					if (!vd_next()) continue;
 					vd_sh->evals++;
 					o += (size_t)snprintf(body + o, sizeof(body) - o, "%s", head);
-					for (int i = 0; i < k; i++) {
+					for (int i = 0, as = layout - 3; i < k && zoned; i++) {
+						/* spelling of this line (of the whole list) */
+						const int sp = layout < 3 ? layout : as % 3;
+						char hd[96];
+						if (layout >= 3) as /= 3;
+						spcls = sp == 1 || spcls == 1 ? 1 : sp > spcls ? sp : spcls;
+						snprintf(hd, sizeof(hd), sp == 0 ? "%s;TZID=%s:" : sp == 1 ? "%s;VALUE=DATE-TIME;TZID=%s:" : "%s;TZID=%s;VALUE=DATE-TIME:", prop, Z->tzid);
+						if (layout < 3) {
+							o += (size_t)snprintf(body + o, sizeof(body) - o, "%s2015%02d%02dT%s%s", i ? "," : hd, uni_m[idx[i]], uni_d[idx[i]], Z->hms, i + 1 == k ? "\n" : "");
+						} else {
+							o += (size_t)snprintf(body + o, sizeof(body) - o, "%s2015%02d%02dT%s\n", hd, uni_m[idx[i]], uni_d[idx[i]], Z->hms);
+						}
+					}
+					for (int i = 0; i < k && !zoned; i++) {
 						if (layout == 0) {
 							o += (size_t)snprintf(body + o, sizeof(body) - o, "%s2015%02d%02d%s", i ? "," : (rdate ? "RDATE;VALUE=DATE:" : "EXDATE;VALUE=DATE:"), uni_m[idx[i]], uni_d[idx[i]], i + 1 == k ? "\n" : "");
 						} else {
@@ -196,8 +225,14 @@ enumerate(void)
 						int d1 = (1 >= Z->dst_from && 1 <= Z->dst_till) ^ Z->south;
 						crossing |= dm != d1;
 					}
-					vd_shape("datelist/%s/%s/n=%d/%s%s", rdate ? "rdate" : "exdate", layout ? "lines" : "list", k, crossing ? "after-switch" : "plain", Z->sm ? "/start-near-switch" : "");
-					if (crossing) vd_nontrivial();
+					if (zoned) {
+						vd_shape("datelist-zoned/%s/%s/n=%d/%s%s", rdate ? "rdate" : "exdate", layout >= 3 ? "lines" : "list", k, spname[spcls], Z->sm ? "/start-near-switch" : "");
+						if (spcls) vd_nontrivial();
+					} else {
+						vd_shape("datelist/%s/%s/n=%d/%s%s", rdate ? "rdate" : "exdate", layout ? "lines" : "list", k, crossing ? "after-switch" : "plain", Z->sm ? "/start-near-switch" : "");
+						if (crossing) vd_nontrivial();
+					}
+#define SIG(cl)	(zoned ? (snprintf(sig, sizeof(sig), "%s/zoned/%s", cl, spname[spcls]), sig) : cl)
 
 					if (rdate) {
 						memcpy(want, base, 12 * sizeof(*want));
@@ -219,13 +254,13 @@ enumerate(void)
 					}
 					ng = pop_all(text, got, 40);
 					if (ng < 0) {
-						vd_viol("rejected", "no task/stream for a well-formed event");
+						vd_viol(SIG("rejected"), "no task/stream for a well-formed event");
 						continue;
 					}
-					if (vd_want_sample() && crossing) vd_sample("%s %s n=%d in %s -> %d occurrences", prop, layout ? "lines" : "list", k, Z->tzid, ng);
+					if (vd_want_sample() && (zoned ? spcls : crossing)) vd_sample("%s %s n=%d in %s -> %d occurrences%s%s", prop, (zoned ? layout >= 3 : layout) ? "lines" : "list", k, Z->tzid, ng, zoned ? ", zoned date-times, " : "", zoned ? spname[spcls] : "");
 					for (int i = 1; i < ng; i++) {
 						if (got[i] < got[i - 1]) {
-							vd_viol("order", "occurrence %d lies before occurrence %d", i, i - 1);
+							vd_viol(SIG("order"), "occurrence %d lies before occurrence %d", i, i - 1);
 							break;
 						}
 					}
@@ -234,7 +269,7 @@ enumerate(void)
 						for (int j = 0; j < ng; j++) f |= got[j] == want[i];
 						if (!f) {
 							rf_dt d = rf_from_secs(want[i], 0);
-							vd_viol(rdate ? "rdate-missing" : "wrongly-dropped", "expected occurrence %04d-%02d-%02dT%02d:%02d:%02dZ is not delivered (%d delivered, %d expected)", d.y, d.m, d.d, d.H, d.M, d.S, ng, nw);
+							vd_viol(SIG(rdate ? "rdate-missing" : "wrongly-dropped"), "expected occurrence %04d-%02d-%02dT%02d:%02d:%02dZ is not delivered (%d delivered, %d expected)", d.y, d.m, d.d, d.H, d.M, d.S, ng, nw);
 							break;
 						}
 					}
@@ -243,14 +278,14 @@ enumerate(void)
 						for (int i = 0; i < nw; i++) f |= got[j] == want[i];
 						if (!f) {
 							rf_dt d = rf_from_secs(got[j], 0);
-							vd_viol(rdate ? "spurious" : "not-excluded", "occurrence %04d-%02d-%02dT%02d:%02d:%02dZ is delivered but %s", d.y, d.m, d.d, d.H, d.M, d.S, rdate ? "was never listed" : "its day is named by an EXDATE");
+							vd_viol(SIG(rdate ? "spurious" : "not-excluded"), "occurrence %04d-%02d-%02dT%02d:%02d:%02dZ is delivered but %s", d.y, d.m, d.d, d.H, d.M, d.S, rdate ? "was never listed" : "its day is named by an EXDATE");
 							break;
 						}
 					}
 					/* a duplicate delivery */
 					for (int j = 1; j < ng; j++) {
 						if (got[j] == got[j - 1]) {
-							vd_viol("dup", "an occurrence is delivered twice");
+							vd_viol(SIG("dup"), "an occurrence is delivered twice");
 							break;
 						}
 					}
